@@ -2,3 +2,5 @@ import SmtpV.Props.C04
 #print axioms SmtpV.Props.C04.C04_own_verdict
 #print axioms SmtpV.Props.C04.C04_reply_syntax
 #print axioms SmtpV.Props.C04.C04_reply_syntax_multiline
+#print axioms SmtpV.Props.C04.C04_one_reply_per_command
+#print axioms SmtpV.Props.C04.C04_error_reply_and_notice
